@@ -41,8 +41,9 @@ func chainFile(what string, decls string, stmt string) spanFile {
 		fb.add(decls)
 		fb.add("")
 	}
+	// the construct: the statements of the group (not its header: an error about a rule is not located at the function)
 	lo, hi := fb.add("func g(m dsl.Matcher) {\n" + stmt + "\n}")
-	return spanFile{what: what, src: fb.String(), lo: lo, hi: hi}
+	return spanFile{what: what, src: fb.String(), lo: lo + 1, hi: hi - 1}
 }
 
 func chainStmt(root string, calls []string) string {
@@ -133,6 +134,17 @@ func chainFiles(seed int64) []spanFile {
 		for _, calls := range [][]string{{"Match(`$x + $y`)", "Report(`r`)"}, {"Match(`$x + $y`)", "Where(m[`x`].Pure)", "Suggest(`$x`)"}} {
 			out = append(out, chainFile("chain on "+root+": "+strings.Join(calls, "."), chainDecls, chainStmt(root, calls)))
 		}
+	}
+	// a rule chain in a statement context other than a plain expression statement
+	for _, st := range []string{
+		"_ = m.Match(`$x + $y`).Report(`r`)", "x := m.Match(`$x + $y`).Report(`r`); _ = x", "var x = m.Match(`$x + $y`); x.Report(`r`)",
+		"if true { m.Match(`$x + $y`).Report(`r`) }", "{ m.Match(`$x + $y`).Report(`r`) }", "func() { m.Match(`$x + $y`).Report(`r`) }()",
+		"defer m.Match(`$x + $y`).Report(`r`)", "go m.Match(`$x + $y`).Report(`r`)", "(m.Match(`$x + $y`).Report(`r`))",
+		"m.Match(`$x + $y`).Report(`r`); m.Match(`$x - $y`).Report(`s`)", "for { m.Match(`$x + $y`).Report(`r`) }", "L: m.Match(`$x + $y`).Report(`r`); goto L",
+		"f := m.Match; f(`$x + $y`).Report(`r`)", "f := m.Match(`$x + $y`).Report; f(`r`)", "m.Match(`$x + $y`).Report(`r`)[`x`].Pure",
+		"m[`x`].Pure", "m.Match", "m", "m.Match(`$x + $y`).Report(`r`).Match(`$x - $y`).Report(`s`)", "dsl.Matcher.Match(m, `$x + $y`).Report(`r`)",
+	} {
+		out = append(out, chainFile("statement "+st, chainDecls, "\t"+st))
 	}
 	// (B) look-alike statements
 	for _, k := range []int{0, 2} {
